@@ -322,6 +322,78 @@ func runRMCase(c *rmCase) (fault string, faultSig string) {
 }
 
 // hasRegex tells if a case uses a regular expression matcher (not expressible in ECAL sinks).
+// runRMCaseConcurrent gives a copy of a case which has been run (Match / Trig filled in): all its events are added at
+// once to a processor with several workers, the fired rules are recorded per event. Nil if it cannot be run so.
+func runRMCaseConcurrent(c *rmCase, workers int) (*rmCase, string) {
+	cc := &rmCase{Ev: c.Ev, ID: c.ID + "-atonce", Rules: c.Rules, Scope: c.Scope, Workers: workers}
+	names := map[string]int{}
+	for k, e := range c.Events {
+		if _, dup := names[e.Name]; dup {
+			return nil, ""
+		}
+		names[e.Name] = k
+		ce := e
+		ce.Fired = []string{}
+		cc.Events = append(cc.Events, ce)
+	}
+	var mu sync.Mutex
+	proc := engine.NewProcessor(workers)
+	proc.ThreadPool().TooManyCallback = func() {}
+	for _, rr := range c.goRules(func(string) {}) {
+		rr := rr
+		name := rr.Name
+		rr.Action = func(p engine.Processor, m engine.Monitor, e *engine.Event, tid uint64) error {
+			mu.Lock()
+			if k, ok := names[e.Name()]; ok {
+				cc.Events[k].Fired = append(cc.Events[k].Fired, name)
+			}
+			mu.Unlock()
+			return nil
+		}
+		if err := proc.AddRule(rr); err != nil {
+			return nil, ""
+		}
+	}
+	scope := c.goScope()
+	proc.Start()
+	pm, hung := guarded(60*time.Second, func() {
+		mons := make([]engine.Monitor, len(cc.Events))
+		for k := range cc.Events {
+			mons[k], _ = proc.AddEvent(cc.Events[k].goEvent(), proc.NewRootMonitor(nil, scope))
+		}
+		proc.Finish()
+		for k := range cc.Events {
+			cc.Events[k].Skipped = mons[k] == nil
+		}
+	})
+	if pm != "" || hung != "" {
+		return nil, "events added at once: " + pm + hung
+	}
+	for k := range cc.Events {
+		sort.Strings(cc.Events[k].Fired)
+	}
+	return cc, ""
+}
+
+// concurrentRMCase: a kind with n rules without state match next to rules with state match, many events of the kind
+func concurrentRMCase(n int, id string) *rmCase {
+	c := &rmCase{Ev: "case", ID: id, Workers: 1, Scope: []rmScopeDef{{Path: []string{}, Allow: true}}}
+	for i := 0; i < n; i++ {
+		c.Rules = append(c.Rules, rmRule{Name: fmt.Sprintf("plain%02d", i+1), Kinds: [][]string{{"a", "b"}}, State: []rmMatcher{}, Scope: [][]string{}, Suppress: []string{}})
+	}
+	for i := 1; i <= 3; i++ {
+		m := rmMatcher{K: "k1", T: "num", N: i, Body: []string{}}
+		c.Rules = append(c.Rules, rmRule{Name: fmt.Sprintf("state%d", i), Kinds: [][]string{{"a", "b"}}, HasState: true, State: []rmMatcher{m}, Scope: [][]string{}, Suppress: []string{}})
+	}
+	if strings.HasSuffix(id, "-0") { // one repetition with a wildcard rule on the level as well
+		c.Rules = append(c.Rules, rmRule{Name: "wild", Kinds: [][]string{{"a", "*"}}, State: []rmMatcher{}, Scope: [][]string{}, Suppress: []string{}})
+	}
+	for v := 0; v < 400; v++ {
+		c.Events = append(c.Events, rmEvent{Ev: "event", Name: fmt.Sprintf("E%03d", v), Kind: []string{"a", "b"}, State: []rmKV{{K: "k1", V: numVal(v % 4)}}})
+	}
+	return c
+}
+
 func (c *rmCase) hasRegex() bool {
 	for _, r := range c.Rules {
 		for _, m := range r.State {
@@ -640,11 +712,30 @@ func C01(r *ev.Run) {
 	for k := 0; k < nBig; k++ {
 		cases = append(cases, rndCase(rng, fmt.Sprintf("big%d", k), 40, 3, 30, k%4 == 0))
 	}
+	for rep := 0; rep < pick(tier, 3, 20); rep++ {
+		for _, n := range []int{1, 2, 3, 5, 6, 7, 9} {
+			cases = append(cases, concurrentRMCase(n, fmt.Sprintf("conc%d-%d", n, rep)))
+		}
+	}
 	var trace []interface{}
 	var sinkCases []*rmCase
 	evIndex := map[int][2]int{}
-	for ci, c := range cases {
-		fault, sig := runRMCase(c)
+	for ci := 0; ci < len(cases); ci++ {
+		c := cases[ci]
+		var fault, sig string
+		if strings.HasSuffix(c.ID, "-atonce") {
+			// already run (below)
+		} else {
+			fault, sig = runRMCase(c)
+			if fault == "" && (strings.HasPrefix(c.ID, "conc") || (strings.HasPrefix(c.ID, "big") && ci%5 == 0)) {
+				// the same events all at once on 8 workers: the rules fired per event are judged like the others
+				if cc, cf := runRMCaseConcurrent(c, 8); cf != "" {
+					r.Violation("C01 fault with events added at once", cf+" (case "+c.ID+")", c.replay())
+				} else if cc != nil {
+					cases = append(cases, cc)
+				}
+			}
+		}
 		r.Case(c.ID, len(c.Rules) > 1 || len(c.Events) > 1)
 		if fault != "" {
 			r.Violation(sig, fault+" (case "+c.ID+")", c.replay())
